@@ -51,23 +51,26 @@ def impl():
 
 
 def parallel_batch(reqs, nproc=12, hang_s=30):
-    """run_batch over nproc processes (contiguous chunks; replies in request order)"""
+    """run_batch over nproc processes (requests dealt round-robin so that expensive kinds are spread;
+    replies in request order)"""
     n = len(reqs)
     if n == 0:
         return []
     k = max(1, min(nproc, n // 200 + 1))
-    bounds = [n * i // k for i in range(k + 1)]
     out = [None] * k
 
     def work(i):
-        out[i] = V.run_batch(impl(), reqs[bounds[i]:bounds[i + 1]], hang_s=hang_s, max_failures=50)
+        out[i] = V.run_batch(impl(), reqs[i::k], hang_s=hang_s, max_failures=50)
 
     ts = [threading.Thread(target=work, args=(i,)) for i in range(k)]
     for t in ts:
         t.start()
     for t in ts:
         t.join()
-    return [r for chunk in out for r in chunk]
+    res = [None] * n
+    for i in range(k):
+        res[i::k] = out[i]
+    return res
 
 
 def listing():
@@ -140,6 +143,25 @@ def observe(tier="quick", only=None):
         for p, m in enumerate(MASKS):
             reqs.append("cell S,%s,%d" % (k, m))
             index.append((row, p, "cell"))
+    # annotations of any width (linter only): every 3-scope mask and the 9-scope mask; thorough: all 511 masks
+    wset = "all" if tier == "thorough" else "three"
+    o.wide_masks = [m for m in range(1, 512) if wset == "all" or bin(m).count("1") == 3 or m == 511]
+    o.wide = []   # dict(table, key..., bits)
+    for r in o.vars:
+        row = {"table": "vars", "name": r["name"], "op": r["op"], "bits": None}
+        o.wide.append(row)
+        reqs.append("wide V,%s,%s %s" % (r["name"], r["op"], wset))
+        index.append((row, 0, "wide"))
+    for f in funcs:
+        row = {"table": "funcs", "name": f["name"], "bits": None}
+        o.wide.append(row)
+        reqs.append("wide F,%s,0 %s" % (f["name"], wset))
+        index.append((row, 0, "wide"))
+    for k in STMT_KINDS:
+        row = {"table": "stmts", "name": k, "bits": None}
+        o.wide.append(row)
+        reqs.append("wide S,%s %s" % (k, wset))
+        index.append((row, 0, "wide"))
     pos = op_positions()
     for op in ASSIGN_OPS + CMP_OPS:
         for l in TYPES:
@@ -153,6 +175,14 @@ def observe(tier="quick", only=None):
     reps = parallel_batch(reqs)
     for req, (row, p, kind), rep in zip(reqs, index, reps):
         f = (rep or "").split()
+        if kind == "wide":
+            if len(f) == 2 and f[0] == "bits":
+                row["bits"] = int(f[1])
+                o.wide_cells = getattr(o, "wide_cells", 0) + len(o.wide_masks)
+            else:
+                row["bits"] = 0
+                o.bad.append((req, rep))
+            continue
         if kind == "vtype":
             if len(f) == 9:
                 row["itype"] = f
@@ -243,6 +273,17 @@ def write_obs(o):
     b.append("].\n")
     _write(os.path.join(gen, "ObsStmts.v"), "".join(b))
     b = [HEADER]
+    b.append("(* annotation masks of any width (compact 9-bit masks) on which the linter was observed; bit m of a row = mask m accepted *)\n")
+    b.append("Definition obs_wide_masks : list N := [%s].\n" % "; ".join(str(m) for m in o.wide_masks))
+    b.append("Definition obs_vars_wide : list (string * string * N) := [\n")
+    b.append(";\n".join("(%s, %s, %d)" % (cs(r["name"]), cs(r["op"]), r["bits"]) for r in o.wide if r["table"] == "vars"))
+    b.append("].\nDefinition obs_funcs_wide : list (string * N) := [\n")
+    b.append(";\n".join("(%s, %d)" % (cs(r["name"]), r["bits"]) for r in o.wide if r["table"] == "funcs"))
+    b.append("].\nDefinition obs_stmts_wide : list (string * N) := [\n")
+    b.append(";\n".join("(%s, %d)" % (cs(r["name"]), r["bits"]) for r in o.wide if r["table"] == "stmts"))
+    b.append("].\n")
+    _write(os.path.join(gen, "ObsWide.v"), "".join(b))
+    b = [HEADER]
     b.append("(* (operator, left type, linter accepts, simulator executes): bit 3 * right type index + form index *)\n")
     b.append("Definition obs_ops : list (string * string * N * N) := [\n")
     b.append(";\n".join("(%s, %s, %d, %d)" % (cs(r["op"]), cs(r["lty"]), lint_bits(r), interp_bits(r)) for r in o.ops))
@@ -311,6 +352,9 @@ def first_cell(row):
         return "F,%s,%s,%d" % (n, a, MASKS[positions(b, 45)[0]])
     if k == "func-ref":
         return "F,%s,0,%d" % (n, MASKS[positions(b, 45)[0]])
+    if k in ("var-wide-model", "func-wide-model", "stmt-wide-model", "stmt-wide-ref"):
+        m = positions(b, 512)[0]
+        return {"v": "V,%s,%s,%d" % (n, a, m), "f": "F,%s,0,%d" % (n, m), "s": "S,%s,%d" % (n, m)}[k[0]]
     if k.startswith("stmt-"):
         return "S,%s,%d" % (n, MASKS[positions(b, 45)[0]])
     if k.startswith("op-"):
@@ -347,6 +391,11 @@ def describe(row):
         return "%s %s %s [%s]: %s" % (a, n, "<value>", where, WHAT.get(k, k))
     if k == "var-type":
         return "%s: linter %s in [%s]: %s" % (n, a, ",".join(SCOPES[p] for p in positions(b, 9)), WHAT[k])
+    if "-wide-" in k:
+        ms = positions(b, 512)
+        return "%s %s under %d annotation masks of three or more scopes (first: %s): %s" % (
+            n, a, len(ms), "+".join(SCOPES[i] for i in range(9) if ms[0] >> i & 1),
+            "linter differs from the documented scopes" if k.endswith("ref") else "model differs from the real linter")
     if k in ("var-table", "func-table-ref", "dyn-ref", "func-table"):
         return "%s %s: %s" % (n, a, WHAT[k])
     ps = positions(b, 45)
